@@ -14,6 +14,7 @@ RULE = (
     "session) and special seeds 0 / 1 / 2^32-1. After every learn() the "
     "agent's Q and counts are compared with a plain-float reference; every policy() and get_reward() result is judged. "
     "Non-trivial = at least 2 actions visited at least twice each; distinct by sequence hash."
+    ' Directly handed rewards come as float, numpy float32 / float64 / int64, int or 0-d array; 1.5% of the steps call agent.reset() on both twins, 2% replace the agent by a pickled / deep copy of itself; a `tiny` mode uses reference losses from 1e-13 down to denormals.'
 )
 ASSUMPTIONS = ["the one undefined case of the rule - an improvement over a reference of exactly 0.0 (division by zero) - is not generated; zero and negative references with any other observation are"]
 REQUIRED_COUNTERS = {"tiny_reference_sequences": 80, "agents_replaced_by_a_pickled_or_deep_copy": 500, "agent_resets": 400, "rewards_of_other_numeric_types": 500, "chosen_actions_never_executed": 500, "nan_observations": 300, "nan_reference_sequences": 50, "alpha_zero_sequences": 50, "special_seed_sequences": 80, "env_resets_between_observations": 500, "zero_reference_steps": 200, "negative_reference_steps": 200, "twins_seeded_through_setter": 100, "learn_steps": 2000, "policy_calls": 2000, "reward_calls": 2000, "improving_steps": 200, "twin_pairs": 50}
